@@ -1,10 +1,14 @@
 import TwistedModel.Endpoints.Quote
+import TwistedProps.C46.Gen
 /-!
 C46 — endpoint description quoting round-trips.
 
 For every list of arguments (positional texts and `key=text` pairs, any texts at all, in
 every position), building the description with `quoteStringArgument` and parsing it with
 `_parse` yields exactly those texts at those positions.
+
+`gen_*`: `quoteStringArgument` is regenerated from endpoints.py on every run (`Generated.Quote`, harness/py2lean.py:
+the for-loop of `str.replace` as a fold) and proved equal to the model's `quote` (`TwistedProps/C46/Gen.lean`).
 -/
 namespace TwistedProps.C46
 open Twisted.Endpoints.Quote
@@ -239,6 +243,25 @@ theorem quote_injective (a b : Text) (h : quote a = quote b) : a = b := by
   have ha := tokenize_quote_alone a true
   rw [h, tokenize_quote_alone] at ha
   simpa using ha.symm
+
+/-! ### the translator-regenerated `quoteStringArgument` (see `TwistedProps/C46/Gen.lean`) -/
+
+/-- `quoteStringArgument` as regenerated from endpoints.py = the model's `quote`, on every string -/
+theorem gen_quote (t : Text) : Generated.Quote.quoteStringArgument t = quote t := gen_quote_eq t
+
+/-- the regenerated `quoteStringArgument` is injective (so is any description built from it) -/
+theorem gen_quote_injective (a b : Text)
+    (h : Generated.Quote.quoteStringArgument a = Generated.Quote.quoteStringArgument b) : a = b :=
+  quote_injective a b (by rw [← gen_quote, ← gen_quote]; exact h)
+
+/-- **the round trip over the regenerated quoting**: a description whose argument texts are quoted by the
+    translated `quoteStringArgument` tokenizes back to exactly that text -/
+theorem gen_tokenize_quote_alone (t : Text) (eqA : Bool) :
+    tokenize (Generated.Quote.quoteStringArgument t) [] eqA = ([Tok.str t], true) := by
+  rw [gen_quote]; exact tokenize_quote_alone t eqA
+
+example : Generated.Quote.quoteStringArgument ['a', ':', '\\', '='] = ['a', '\\', ':', '\\', '\\', '\\', '='] := by
+  rw [gen_quote]; decide
 
 /-! ### Non-vacuity -/
 example : (match parse (describe [Item.pos ['a', '=', 'b', ':', 'c', '\\'], Item.kw ['k'] ['x', '=', ':', '\\'], Item.pos []]) with
